@@ -30,6 +30,7 @@ ASSUMPTIONS = [
 ]
 BOUNDS = {"quick": {"small_buffers": (7, 8, 9, 16, 64), "layer_b": "subset"}, "thorough": {"small_buffers": (1, 2, 3, 5, 6, 7, 8, 9, 10, 13, 14, 15, 16, 17, 32, 64), "layer_b": "full"}}
 FILLERS = ("00", "ff", "41", "key", "lcg")
+XOR_BUFFERS = (7, 9, 13, 509, 1021, 4099)
 
 
 def blocks(seed):
@@ -68,6 +69,10 @@ def plan(tier, seed):
         ch.append({"key": f"A/bigbuffer/{blk}", "kind": "bigbuffer", "block": blk, "cost": 1500})
     for arch in ("x86", "x64"):
         ch.append({"key": f"A/containers/{arch}", "kind": "containers", "arch": arch, "cost": 3000})
+    for arch in ("x86", "x64"):
+        for blk in ("two", "realistic"):
+            for key in (0x69, 0x2E, 0x00, 0xAF):
+                ch.append({"key": f"A/xorbuffers/{arch}/{blk}/{key:02x}", "kind": "xorbuffers", "arch": arch, "block": blk, "xk": key, "cost": 1500})
     for part in range(8):
         ch.append({"key": f"B/constructors/{part}", "kind": "constructors", "part": part, "cost": 4000})
     ch.append({"key": "B/history-independence", "kind": "history", "cost": 800})
@@ -327,6 +332,29 @@ def chunk_containers(chunk, acc):
     acc.sample({"containers": ["PE .data", "XorEncoded PE"], "arch": arch, "stubs": list(stubs), "nonces": [n.hex() for n in nonces]})
 
 
+def chunk_xorbuffers(chunk, acc):
+    """The decoding file object is read through every kind of read-buffer size (sizes that are not a multiple of the
+    4-byte XOR chunk make every read start inside a chunk)."""
+    arch, bname, key = chunk["arch"], chunk["block"], chunk["xk"]
+    B = blocks(acc.seed)
+    blk = RC.obfuscate(B[bname].ljust(4096, b"\x00"), key)
+    nonce = b"\x12\x34\x56\x78"
+    for prepend in (0, 8):
+        payload, views = container("xor", arch, blk, prepend, xorenc.CALL_STUB, nonce)
+        acc.states += 1
+        for S in XOR_BUFFERS:
+            for keys, ak in ((None, False), ([key], False), (None, True)):
+                if ak and S < 500:
+                    continue
+                got = lib_candidates(payload, keys, ak, S)
+                acc.transitions += 1
+                bad = judge_a(views, keys, ak, got)
+                acc.case(("xorbuf", bname, key, prepend, tuple(keys or ()), ak, S), outcome=[(g[1], g[2]) for g in got] if isinstance(got, list) else got)
+                if bad:
+                    acc.fail(bad[0] + "/xorencoded/small-buffer", {"kind": "Axorbuf", "arch": arch, "block": bname, "key": key, "prepend": prepend, "keys": keys, "all_keys": ak, "S": S, "seed": acc.seed}, bad[1], bad[2])
+    acc.sample({"container": "XorEncoded PE", "arch": arch, "block": bname, "key": key, "buffer_sizes": list(XOR_BUFFERS)})
+
+
 # ------------------------------------------------------------------------------------------------------------------
 # layer B: the public constructors
 # ------------------------------------------------------------------------------------------------------------------
@@ -483,6 +511,8 @@ def replay(case):
         chunk_history({}, a)
     elif case["kind"] in ("Acont", "Arawdecoy"):
         chunk_containers({"arch": case["arch"]}, a)
+    elif case["kind"] == "Axorbuf":
+        chunk_xorbuffers({"arch": case["arch"], "block": case["block"], "xk": case["key"]}, a)
     else:
         chunk_constructors({"part": case["part"]}, a)
     v = a.violations[0] if a.violations else None
